@@ -218,7 +218,7 @@ theorem set_correct (isB : Bool) (f : Form) (v : Val) (p : List Seg) (src : Src)
             if !inRangeIdx idx (seqElems v).length then .ok v else
             match setText isB src with
             | none => .ok v
-            | some none => .panic
+            | some none => if LibCfg.fixed.stringsNilSrcPanics then .panic else .ok v
             | some (some t) =>
               if t.isEmpty && LibCfg.fixed.stringsSetEmptyNoop then .ok v
               else
@@ -251,8 +251,7 @@ theorem set_correct (isB : Bool) (f : Form) (v : Val) (p : List Seg) (src : Src)
           | some ot =>
             cases ot with
             | none =>
-              simp only [stringsSetAccepts]
-              exact setText_some_none isB src hst
+              simp [stringsSetAccepts, seqAddr_eq, ha, hr, he0, hst, hm, LibCfg.fixed]
             | some t =>
               simp only [LibCfg.fixed, Bool.and_false, Bool.false_eq_true, if_false]
               cases v with
@@ -268,6 +267,34 @@ theorem set_correct (isB : Bool) (f : Form) (v : Val) (p : List Seg) (src : Src)
               | _ => simp [seqElems] at hlt
   unfold setAcc stringsSet
   cases f <;> first | exact key | rfl
+
+/-- Set never panics — a typed-nil `*string` / `*[]byte` as the assigned value included (repaired:
+`fix: StringsInspector.Set dereferenced a nil *string / *[]byte value`). -/
+theorem set_no_panic (isB : Bool) (f : Form) (v : Val) (p : List Seg) (src : Src) :
+    stringsSet LibCfg.fixed isB f v p src ≠ .panic := by
+  unfold stringsSet
+  match p with
+  | [] => simp
+  | _ :: _ :: _ => simp
+  | [s] =>
+    simp only [spOf, LibCfg.fixed]
+    cases f <;> simp only [] <;> (try (intro h; cases h))
+    all_goals
+      cases atoiSeg s <;> simp only [] <;> (try (intro h; cases h))
+      by_cases hr : (!inRangeIdx ‹Int› (seqElems v).length) = true
+      · simp [hr]
+      · simp only [hr]
+        cases setText isB src with
+        | none => simp
+        | some ot =>
+          cases ot with
+          | none => simp
+          | some t => simp only [Bool.and_false, Bool.false_eq_true, if_false]; cases v <;> simp
+
+/-- The original library dereferenced the nil `*string`. -/
+theorem original_panics_nil_src :
+    (match stringsSet LibCfg.original false .ptr (.slice false [.str (strBytes "a")] 1) [{ text := strBytes "0" }]
+      { kind := .string, isPtr := true, v := .nilptr } with | .panic => true | _ => false) = true := by decide
 
 /-- Forms `sp` refuses (`**[]string`, untyped nil, foreign types, and — repaired — typed-nil pointers):
 nothing happens. The driver's guard for these forms is `o == .ok v`. -/
